@@ -493,6 +493,11 @@ class Interp:
             return self.call_builtin(f.name, args, kwargs, node, frame)
         if isinstance(f, BoundMethod):
             return self.call_method(f.recv, f.name, args, kwargs, node)
+        hook = getattr(self.dom, 'call_object', None)
+        if hook is not None:
+            r = hook(f, args, kwargs, node)
+            if r is not None:
+                return r
         return Unknown('call of %r' % (f,))
 
     def _generic_ext(self, dotted, args, kwargs, node):
@@ -643,6 +648,21 @@ class Interp:
             return self.getattr(args[0], args[1].v, node, frame)
         if name == 'dict' and not args:
             d = DictV()
+            for k, v in kwargs.items():
+                d.set(Const(k), v)
+            return d
+        if name == 'dict' and len(args) == 1:
+            # dict(mapping) / dict(iterable of pairs), plus keywords
+            d = DictV()
+            src = args[0]
+            if isinstance(src, DictV):
+                d.entries = list(src.entries)
+            else:
+                pairs = self.iterate(src, node)
+                if pairs is None or not all(isinstance(p_, Tup) and len(p_.items) == 2 for p_ in pairs):
+                    return Unknown('dict of a non-pair iterable')
+                for p_ in pairs:
+                    d.set(p_.items[0], p_.items[1])
             for k, v in kwargs.items():
                 d.set(Const(k), v)
             return d
